@@ -100,3 +100,50 @@ theorem bridge_file (d : Data) (t : Str) (h : renderNoop d = some t) :
   | some f => exact ⟨f, rfl, by simpa [hg] using h⟩
 
 end Moq
+
+namespace Moq
+
+theorem renderNoop_some_argsOK (d : Data) (t : Str) (h : renderNoop d = some t) : ArgsOK d := by
+  intro mk hmk m hm hn
+  have h1 : MethodD.toVal m = none := by simp [MethodD.toVal, hn]
+  have h2 : MockD.toVal mk = none := by
+    unfold MockD.toVal
+    rw [mapM_none MethodD.toVal mk.methods ⟨m, hm, h1⟩]; rfl
+  have h3 : d.toVal = none := by
+    unfold Data.toVal
+    rw [mapM_none MockD.toVal d.mocks ⟨mk, hmk, h2⟩]; rfl
+  simp [renderNoop, h3] at h
+
+/-- **what the template's text is made of**: whenever the regenerated template prints a text `t`
+    for data `d`, `t` is the print-out of a structured file in which every mock comes from a mock
+    of `d`, every method from a method of that mock, and the three function bodies of the method
+    are exactly `genBody`, `genCallsBody` and (with `-with-resets`) `genResetBody` – the `Stmt`
+    lists the theorems of C03–C08 are about.  For all data; not checked per input. -/
+theorem bridge_bodies (d : Data) (t : Str) (h : renderNoop d = some t) :
+    ∃ f, genFile d = some f ∧ printFile f = t ∧ f.mocks.length = d.mocks.length ∧
+      ∀ mkF ∈ f.mocks, ∃ mk ∈ d.mocks,
+        mkF.mockName = mk.mockName ∧ mkF.ifaceName = mk.ifaceName ∧
+        mkF.methods.length = mk.methods.length ∧
+        (mkF.resetAll = if d.resets then some (mk.methods.flatMap fun m => genResetBody m.name) else none) ∧
+        ∀ mF ∈ mkF.methods, ∃ m ∈ mk.methods,
+          mF.name = m.name ∧
+          mF.body = genBody d.stub mk.mockName mk.ifaceName m ∧
+          mF.callsBody = genCallsBody m ∧
+          mF.resetBody = (if d.resets then some (genResetBody m.name) else none) := by
+  have hok := renderNoop_some_argsOK d t h
+  have hf := genFile_ok d hok
+  have ht : printFile (fileFT d) = t := by
+    have := bridge d
+    rw [h, hf, Option.map_some] at this
+    exact (Option.some.inj this).symm
+  refine ⟨fileFT d, hf, ht, by simp [fileFT], ?_⟩
+  intro mkF hmkF
+  simp only [fileFT, List.mem_map] at hmkF
+  obtain ⟨mk, hmk, rfl⟩ := hmkF
+  refine ⟨mk, hmk, rfl, rfl, by simp [mockFT], rfl, ?_⟩
+  intro mF hmF
+  simp only [mockFT, List.mem_map] at hmF
+  obtain ⟨m, hm, rfl⟩ := hmF
+  exact ⟨m, hm, rfl, rfl, rfl, rfl⟩
+
+end Moq
